@@ -22,12 +22,14 @@ parameter vector in scope.  The output is judged by
 
 HISTORY part: one Pretty(obj) instance is measured / rendered at two widths /
 its object mutated in place, all histories of length <=3 (quick) / <=4 (thorough);
-every render must show the CURRENT object (keys history/pretty/...).  31 360
-histories, ~51 k judged renders, ~40 CPU-s in quick; 138 880 histories in thorough.
+every render must show the CURRENT object (keys history/pretty/...).  40 320
+histories, ~66 k judged renders, ~50 CPU-s in quick; 178 560 histories in thorough.
+max_length and max_string include the boundary value 0 (everything omitted and
+reported) in the main part and in the history variants.
 
-Cost: ~110-120 us CPU per evaluation (half of it Rich itself). quick = 2.05 M
-evaluations (~225 CPU-s, ~15-20 s wall on 16 idle cores); thorough = 44 M
-evaluations (~5 200 CPU-s, ~6 min wall on 16 idle cores). The development machine
+Cost: ~110-120 us CPU per evaluation (half of it Rich itself). quick = 2.44 M
+evaluations (~215-270 CPU-s, ~15-20 s wall on 16 idle cores); thorough = 52.7 M
+evaluations + 178 560 histories (~6 000 CPU-s estimated, ~7 min wall on 16 idle cores). The development machine
 was shared (load average 40-100), so measured walls were several times longer.
 """
 import ast
@@ -1103,7 +1105,10 @@ def judge_content(desc, obj, out, ml, ms):
     try:
         root, toks = parse(out)
     except ParseError as e:
-        walk_err = Mismatch("evalback/unparseable", str(e))
+        if not out.strip():
+            walk_err = Mismatch("evalback/empty-output", "the output is empty / blank")
+        else:
+            walk_err = Mismatch("evalback/unparseable", str(e))
     if root is not None:
         wk = Walker(ml, ms)
         try:
